@@ -283,9 +283,9 @@ EXTRA_TEXT = {
     "C03": "LZMA1 chains are decoded under every valid way of marking their end (LZMA1 / LZMA1EXT with size known or unknown x ALLOW_EOPM); a fifth of the cases run on a reused handle whose first life decoded the original or a contrast file, whole or abandoned.",
     "C04": "A fifth of the cases run on a reused handle (first life: original or contrast file, whole or abandoned, optionally with one allocation failure; the limit given at init is read back); crafted Index fields carry Record counts at the edge of size arithmetic.",
     "C05": "A quarter of the base files hold stored (incompressible) plaintext of every length residue mod 64 under CRC32/CRC64/SHA-256, so every plaintext bit is flipped under every check.",
-    "C06": "A third of the encoder cases carry a flush script (same actions at the same offsets in every run, only the slicing differs).",
+    "C06": "A third of the encoder cases carry a flush script (same actions at the same offsets in every run, only the slicing differs); two of the six variants run on a handle that was the same kind of encoder before (re-initialised without lzma_end).",
     "C07": "Lifecycles: early lzma_end, second life of the handle (re-init without lzma_end, other threads / threading limit) and output space that exactly fits and is never enlarged.",
-    "C08": "Lifecycles: early end, re-init with the same / another thread count, and an allocation failure (usually inside a worker) that must surface as LZMA_MEM_ERROR without blocking or leaking.",
+    "C08": "Lifecycles: early end, re-init with the same / another thread count, and an allocation failure (usually inside a worker) that must surface as LZMA_MEM_ERROR without blocking or leaking; the progress rule is also checked for the second life.",
     "C10": "For index operations 'unchanged' also means: same digest as an untouched twin after a fixed continuation (other Stream Flags, padding, three appends).",
     "C12": "One more lzma_filters_update (whole chain or lc/lp/pb) is attempted at an arbitrary lzma_code call boundary under 1-3 byte output, also while a header is being copied out: accepted or refused, everything still has to decode.",
     "C13": "Decoded indexes join the operation history (a third), file-info results take further appends, files may contain Block-less Streams; xz --list --robot -vv figures are compared with an independent parser, including Stream Padding around the 8 KiB read window and Streams of thousands of Blocks.",
